@@ -2,7 +2,7 @@
    every batch size; the trapezoid is exact on affine gradients; completeness for every quadratic (F-quad);
    closed form of the completeness gap for F-cubic. *)
 From Xpl Require Import Base.Tensor Base.Families C04.Fam C04.Spec C04.Aux.
-From Coq Require Import Arith.
+From Coq Require Import Arith Lqa.
 Open Scope Qc_scope.
 
 (* ---------- the path ---------- *)
@@ -406,6 +406,10 @@ Lemma sum_ones M : qsum (map (fun _ : nat => 1) (seq 0 M)) = qn M.
 Proof. induction M as [|M IH]; [cbn; rewrite qn_0; reflexivity|].
   rewrite seq_S, map_app, qsum_app, IH, qn_S. cbn [map qsum]. ring. Qed.
 
+Lemma sum_const (u : Qc) M : qsum (map (fun _ : nat => u) (seq 0 M)) = qn M * u.
+Proof. induction M as [|M IH]; [cbn; rewrite qn_0; ring|].
+  rewrite seq_S, map_app, qsum_app, IH, qn_S. cbn [map qsum]. ring. Qed.
+
 Lemma sum_squares M :
   three * qsum (map (fun k => qn k * qn k + qn (S k) * qn (S k)) (seq 0 M)) = qn M * (two * qn M * qn M + 1).
 Proof.
@@ -421,10 +425,10 @@ Theorem trapezoid_quadratic m (g : nat -> Qc) u v w : (2 <= m)%nat ->
 Proof.
   intros Hm Hg. unfold trap_avg.
   assert (Hq : qn (m - 1) <> 0) by (apply qn_neq0; lia).
-  rewrite (qsum_map_ext _ (fun k => u * 1 + (qn k + qn (S k)) * (v / (two * qn (m - 1)))
+  rewrite (qsum_map_ext _ (fun k => u + (qn k + qn (S k)) * (v / (two * qn (m - 1)))
                                    + (qn k * qn k + qn (S k) * qn (S k)) * (w / (two * (qn (m - 1) * qn (m - 1)))))).
   2:{ intros k Hk. apply in_seq in Hk. cbv beta. rewrite !Hg by lia. qfield. }
-  rewrite !qsum_map_add, !qsum_map_mulr, qsum_map_scale, sum_odd, sum_ones.
+  rewrite !qsum_map_add, !qsum_map_mulr, sum_const, sum_odd.
   pose proof (sum_squares (m - 1)) as S2.
   set (s2 := qsum (map (fun k => qn k * qn k + qn (S k) * qn (S k)) (seq 0 (m - 1)))) in *.
   assert (E : s2 = qn (m - 1) * (two * qn (m - 1) * qn (m - 1) + 1) / three).
@@ -486,7 +490,7 @@ Proof.
       intros i Hi. cbv beta. unfold vmul at 1. rewrite (nthq_map2 Qcmult) by (try ring; unfold vmul; rewrite map2_length, Nat.min_id; reflexivity).
       rewrite nthq_vmul by reflexivity. ring. }
   rewrite (qsum_swap (fun At i => nthq (fst At) i * snd At * (nthq x i * nthq x i * nthq x i))).
-  apply qsum_map_ext. intros i _. cbv beta. rewrite map_map, <- qsum_map_mulr. reflexivity.
+  apply qsum_map_ext. intros i _. cbv beta. rewrite map2_combine, <- qsum_map_mulr. reflexivity.
 Qed.
 
 Definition cubic_K (As : list (list Qc)) (n : nat) (bv : Qc) (x t : list Qc) : Qc :=
@@ -509,7 +513,7 @@ Proof.
   rewrite (qsum_map_ext (fun i => cube_coef As t i * (nthq (repeat bv n) i * nthq (repeat bv n) i * nthq (repeat bv n) i))
                         (fun i => cube_coef As t i * (bv * bv * bv))).
   2:{ intros i Hi. apply in_seq in Hi. rewrite nthq_repeat by lia. reflexivity. }
-  qfield.
+  rewrite !qsum_map_mulr. qfield.
 Qed.
 
 (* ig_gap_cubic: for every member of F-cubic the completeness gap of the MODEL of explain is exactly
@@ -526,4 +530,75 @@ Proof.
   destruct ts as [|t ts]; [reflexivity|]. cbn [map2]. f_equal.
   - apply spec_gap_cubic; [exact Hm | apply Hxs; left; reflexivity].
   - apply IH. intros y Hy. apply Hxs. right; exact Hy.
+Qed.
+
+(* ---------- "the gap shrinks as steps grows": K/(m-1)^2 is strictly decreasing in absolute value ---------- *)
+Lemma qn_lt a b : (a < b)%nat -> qn a < qn b.
+Proof. intro H. unfold qn. change (this (Q2Qc (Z.of_nat a # 1)) < this (Q2Qc (Z.of_nat b # 1)))%Q.
+  rewrite !Qc_Q2Qc_q. unfold Qlt; cbn. lia. Qed.
+
+Lemma shrink_pos (g g' a b : Q) : (0 < a -> a < b -> g * (a*a) == g' * (b*b) -> 0 < g -> 0 <= g' /\ g' < g)%Q.
+Proof.
+  intros Ha Hab E Hg.
+  assert (0 < a*a)%Q by nra. assert (a*a < b*b)%Q by nra.
+  assert (0 < g * (a*a))%Q by nra.
+  split.
+  - assert (~ g' < 0)%Q; [intro; nra | lra].
+  - assert (~ g <= g')%Q; [intro; nra | lra].
+Qed.
+
+Lemma shrink_core (g g' a b : Qc) : 0 < a -> a < b -> g * (a*a) = g' * (b*b) -> g <> 0 -> Qcabs g' < Qcabs g.
+Proof.
+  intros Ha Hab E Hg.
+  destruct (Qc_dec 0 g) as [[P|N]|Z]; [| |congruence].
+  - assert (R : (0 <= this g' /\ this g' < this g)%Q).
+    { apply (shrink_pos (this g) (this g') (this a) (this b)); qc2q; auto. }
+    unfold Qcabs. destruct (Qclt_le_dec g' 0) as [H1|H1], (Qclt_le_dec g 0) as [H2|H2]; qc2q; lra.
+  - assert (R : (0 <= - this g' /\ - this g' < - this g)%Q).
+    { apply (shrink_pos (- this g) (- this g') (this a) (this b)); qc2q; auto; lra. }
+    unfold Qcabs. destruct (Qclt_le_dec g' 0) as [H1|H1], (Qclt_le_dec g 0) as [H2|H2]; qc2q; lra.
+Qed.
+
+Theorem gap_strictly_decreasing (K : Qc) m m' : (2 <= m)%nat -> (m < m')%nat -> K <> 0 ->
+  Qcabs (K / (qn (m' - 1) * qn (m' - 1))) < Qcabs (K / (qn (m - 1) * qn (m - 1))).
+Proof.
+  intros Hm Hlt HK.
+  assert (Ha : 0 < qn (m - 1)) by (apply qn_pos; lia).
+  assert (Hab : qn (m - 1) < qn (m' - 1)) by (apply qn_lt; lia).
+  assert (Ha0 : qn (m - 1) <> 0) by (apply qn_neq0; lia).
+  assert (Hb0 : qn (m' - 1) <> 0) by (apply qn_neq0; lia).
+  apply (shrink_core _ _ (qn (m - 1)) (qn (m' - 1)) Ha Hab).
+  - field. split; assumption.
+  - intro E. apply HK.
+    replace K with (K / (qn (m - 1) * qn (m - 1)) * (qn (m - 1) * qn (m - 1))) by (field; exact Ha0).
+    rewrite E. ring.
+Qed.
+(* ---------- channel reduction keeps completeness (sum) / scales it by C (mean) ---------- *)
+Lemma chunks_exact {A} c k (l : list A) : (1 <= c)%nat -> length l = (k * c)%nat ->
+  forall b, In b (chunks c l) -> length b = c.
+Proof.
+  intro Hc. revert l. induction k as [|k IH]; intros l Hl b Hb.
+  - destruct l; [destruct Hb | cbn [length] in Hl; lia].
+  - assert (Hne : l <> []) by (intro E; rewrite E in Hl; cbn [length] in Hl; lia).
+    rewrite chunks_cons_step in Hb by assumption. destruct Hb as [<-|Hb].
+    + rewrite firstn_length. lia.
+    + apply (IH (skipn c l)); [rewrite skipn_length; lia | exact Hb].
+Qed.
+
+Lemma harmonize_sum_total c e : qsum (harmonize RSum c e) = qsum e.
+Proof.
+  unfold harmonize. destruct (2 <=? c)%nat eqn:E; [|reflexivity].
+  apply Nat.leb_le in E. cbn [reduce_block].
+  rewrite <- qsum_concat, concat_chunks by lia. reflexivity.
+Qed.
+
+Lemma harmonize_mean_total c k e : (2 <= c)%nat -> length e = (k * c)%nat ->
+  qn c * qsum (harmonize RMean c e) = qsum e.
+Proof.
+  intros Hc Hl. unfold harmonize. replace (2 <=? c)%nat with true by (symmetry; apply Nat.leb_le; exact Hc).
+  cbn [reduce_block].
+  rewrite (qsum_map_ext _ (fun blk => qsum blk / qn c)).
+  2:{ intros blk Hb. cbv beta. cbn [reduce_block]. rewrite (chunks_exact c k e ltac:(lia) Hl blk Hb). reflexivity. }
+  rewrite qsum_map_div, <- qsum_concat, concat_chunks by lia.
+  field. apply qn_neq0. lia.
 Qed.
